@@ -342,10 +342,11 @@ pub fn miller_case(a: &N, b: &N) -> Result<u32, Bad> {
     let (pa, qb) = (ref_mul::<G1>(a), ref_mul::<G2>(b));
     let want = refmodel::pairing(&pa, &qb);
     let ctx = || format!("P = {:x}*P1, Q = {:x}*P2", a, b);
-    let mut p = G1::one() * fr(a);
-    let mut qq = G2::one() * fr(b);
-    p.normalize();
-    qq.normalize();
+    // affine inputs built from the reference coordinates: no group operation of the library is involved
+    let (px, py) = pa.xy().expect("non-identity");
+    let (qx, qy) = qb.xy().expect("non-identity");
+    let p = <G1 as crate::api::GroupApi>::new_jac(px, py, &refmodel::Fq(N::one()));
+    let qq = <G2 as crate::api::GroupApi>::new_jac(qx, qy, &F2 { a: N::one(), b: N::zero() });
     let (ip, iq) = (h::g1_in(p), h::g2_in(qq));
     let m1 = lib("G2::miller_loop", || h::g2_miller_loop(&iq, &ip))?;
     let prep = lib("G2Prepared::from", || G2Prepared::from(qq))?;
